@@ -54,8 +54,8 @@ SPEC = dict(
                "and completes everything; resumable ends keep everything; any continuation containing a matching reply, send failure "
                "or non-resumable end completes a pending request. MAM machine: finished at most once always, and exactly once (state released) for every "
                "history once the IQ has completed and all decryption jobs have reported, with or without e2ee, empty page included. Negotiated boundaries (Neg): a session that is not a resumption leaves nothing pending whatever SM state it has, "
-               "a genuine resumption retains everything, orderly disconnect cancels; loss cancels iff the client believes it cannot resume "
-               "(partial: defect theorem C07_defect_stale_resumable_after_nosm_session, reproduced on the real negotiation). chain_once: a task built by chain finishes exactly once when its source does "
+               "a genuine resumption retains everything, orderly disconnect cancels; the client's belief 'can resume' is exactly what the server granted, so the loss of a session "
+               "without (resumable) stream management leaves nothing pending, for every history. chain_once: a task built by chain finishes exactly once when its source does "
                "(context alive), at most once always.",
     level_note="Proved about the hand-written models; model-to-code tie is differential (exhaustive to a depth, sampled beyond). "
                "Continuation chaining and the other managers are checked by direct counting on the implementation only.",
